@@ -24,7 +24,7 @@ EXPLANATION = (
     "C08.d: no in-place store below _perform_timestep targets the weather matrix or a numpy view of it (slices and "
     "boolean-mask selections are distinguished by the view/copy table), so every season reads the weather the single-season run reads. "
     "C08.e: the thermal-time calendar of a SwitchGDD crop must not be an aggregate over the seasons of the window (reported: prepare_gdd's "
-    "mean / median over all seasons - known finding F19, the documented behaviour of the conversion). C08.f (sibling agreement): the CO2 adjustment is computed by compute_variables for the first season and by the season reset for later ones; the defining expressions of its seven quantities are the same sets. C08.b also: the snapshot thini is taken from the final initial profile - no store to the water content (rebinding or in place) follows it in the initial-conditions routine (the groundwater adjustments come first). C08.g: the season reset reads the season's CO2 concentration from the yearly series by label (the year of the clock's step start), never by position - the series starts with the year of the simulation start, the seasons with the first planting date on or after it. NOT decided: bitwise equality of the two runs.")
+    "mean / median over all seasons - known finding F19, the documented behaviour of the conversion). C08.f (sibling agreement): the CO2 adjustment is computed by compute_variables for the first season and by the season reset for later ones; the defining expressions of its seven quantities are the same sets. C08.b also: the snapshot thini is taken from the final initial profile - no store to the water content (rebinding or in place) follows it in the initial-conditions routine (the groundwater adjustments come first). C08.g: the season reset reads the season's CO2 concentration from the yearly series by label (the year of the clock's step start), never by position - the series starts with the year of the simulation start, the seasons with the first planting date on or after it. C08.h: the ponding restored at a season start is computed from the in-season field management (access path), as in the initial conditions of a run that starts in season 0. NOT decided: bitwise equality of the two runs.")
 
 L = frozenset
 ST = ("state",)
@@ -362,6 +362,37 @@ def rule_c(chk, prog):
         chk.violation("C08.c", f"{cv.module}:{cv.qualname}", "[deepcopy(...) for ... in CropChoices]", "seasons no longer get their own copy of the crop", loc=cv.loc())
 
 
+def rule_h(chk, prog):
+    """C08.h (a season starts from the ponding configured for the *season*): the ponding depth the reset restores when the off-season is skipped
+    is computed from the in-season field management (access path PARAM.FieldMngt) - as the initial conditions do for a run that starts in
+    season 0 - never from the fallow management: a single-season run started at planting k sees the in-season bund water."""
+    from ..common import step_roles, RESET_FN
+    roles = step_roles(prog)
+    fi = prog.func(RESET_FN)
+    chk.fn(fi.key)
+    where = f"{fi.module}:{fi.qualname}"
+    n = 0
+    for a in walk_no_nested(fi.node):
+        if not (isinstance(a, ast.Assign) and isinstance(a.targets[0], ast.Attribute) and a.targets[0].attr == "surface_storage"):
+            continue
+        reads = [x for x in ast.walk(a.value) if isinstance(x, ast.Attribute) and x.attr in ("bund_water", "z_bund", "bunds")]
+        if not reads:
+            continue
+        n += 1
+        construct = norm(a)
+        bad = []
+        for x in reads:
+            ps = roles.paths(fi, x.value)
+            if not ps or not all(p == "PARAM.FieldMngt" or p.startswith("PARAM.FieldMngt.") or p.startswith("PARAM.FieldMngt[") for p in ps):
+                bad.append(f"{norm(x)} <- {sorted(ps) or '?'}")
+        if bad:
+            chk.violation("C08.h", where, construct, f"the ponding a new season starts from is not taken from the in-season field management ({'; '.join(bad)}): season k of "
+                          "a multi-season run starts with other ponded water than a single-season run started on its planting date", loc=fi.loc(a))
+        else:
+            chk.ok("C08.h", where, construct, "from the in-season field management (PARAM.FieldMngt)")
+    chk.floor("C08.h", n, 1, "ponding restored from the bund settings in the season reset")
+
+
 def run(chk, prog, tier):
     rule_a(chk, prog)
     rule_b(chk, prog)
@@ -373,6 +404,7 @@ def run(chk, prog, tier):
     chk.floor("C08.f", co2_factor_agreement(chk, prog, "C08.f"), 7, "CO2-factor quantities compared")
     from ._siblings import co2_series_rules
     co2_series_rules(chk, prog, rule_lookup="C08.g")
+    rule_h(chk, prog)
     chk.exhaustive = True
 
 
